@@ -298,6 +298,32 @@ example :
 example :
     (obsOf (run .repaired (init 2 0) [.accept 0, .reg 0 2]) 2).cl = [none, some ⟨0, 2, true, true⟩] := by decide
 
+/-! ## Two blocks racing on the registry -/
+
+/-- **Any operation racing with a handshake's `UpdateAuth` (or with any other block).**  Every registry method
+holds `ClientRegistry.mu` from its lookup to its last map write (the pinned skeletons and guards of `UpdateAuth`,
+`Remove`, `Register`, `KickOldConnection`, `CleanupStale`), so two blocks of operations racing on the registry
+produce the outcome of one of the two orders.  For every prefix and every two blocks, both orders satisfy
+`holdsRace`: the observation is that of a sequential history and the property holds for it — in particular a
+by-client lookup never answers a connection that the by-connection lookup and `Count` no longer know. -/
+theorem C07_race_linearizable (n m cap : Nat) (pre a b : List Op) :
+    holdsRace n m cap pre a b (obsOf (run .repaired (init n cap) (pre ++ a ++ b)) m) = true ∧
+    holdsRace n m cap pre a b (obsOf (run .repaired (init n cap) (pre ++ b ++ a)) m) = true := by
+  constructor
+  · simp [holdsRace, C07_main]
+  · simp [holdsRace, C07_main]
+
+/-- non-vacuity: the outcome "indexed although removed" (a removal landing between the lookup and the indexing of
+`UpdateAuth`) is neither order: `holdsRace` rejects it. -/
+example :
+    holdsRace 1 1 0 [.accept 0] [.hsAuth 0 1 true, .hsFin 0] [.remove 0]
+      { cl := [some ⟨0, 1, true, false⟩], cn := [⟨none, true, false, true⟩], la := [],
+        count := 0, total := 1, control := 0, tunnel := 0, active := 0 } = false := by decide
+
+example :
+    holdsRace 1 1 0 [.accept 0] [.hsAuth 0 1 true, .hsFin 0] [.remove 0]
+      (obsOf (run .repaired (init 1 0) [.accept 0, .hsAuth 0 1 true, .hsFin 0, .remove 0]) 1) = true := by decide
+
 /-! ## Non-vacuity and recorded findings -/
 
 /-- a non-trivial history: duplicate login evicts the older connection, re-login under another id,
